@@ -38,6 +38,19 @@ def go_run(kind, lines, tag):
     return open(outp).read().split("\n")[:-1], out
 
 
+def vm_chunks(lines, limit=9000):
+    """vm_compute cross-check in chunks: coqc overflows its stack on string literals of a few 10 kB"""
+    out, cur, size = [], [], 0
+    for l in lines + [None]:
+        if l is None or (cur and size + len(l) > limit):
+            out += vlib.run_model_vm("\n".join(cur) + "\n")
+            cur, size = [], 0
+        if l is not None:
+            cur.append(l)
+            size += len(l) + 1
+    return out
+
+
 def split_go(line):
     """Go drivers append ' || <go-only data>' to the canonical part"""
     if " || " in line:
@@ -429,8 +442,8 @@ def run(ck, replay):
             return
         ml = vlib.run_model("\n".join(lines) + "\n")
         if not quick:
-            pick = [i for i in range(len(lines)) if len(lines[i]) < 900][:150]   # a Coq string literal of <= ~100 kB
-            vm = vlib.run_model_vm("\n".join(lines[i] for i in pick) + "\n")
+            pick = [i for i in range(len(lines)) if len(lines[i]) < 900][:150]
+            vm = vm_chunks([lines[i] for i in pick])
             ck.add_obligation(vm == [ml[i] for i in pick], "extracted model agrees with vm_compute on %d codec cases" % len(pick))
         dec_cases = []
         for i, (c, m) in enumerate(msgs):
